@@ -1578,7 +1578,10 @@ func isComplexAggregationExpression(expr string) bool {
 	if aggCount == 1 && outerIsAggregation {
 		start := strings.Index(expr, "(")
 		end := strings.LastIndex(expr, ")")
-		if start != -1 && end != -1 && end > start {
+		// The call must span the whole item: in `sum(v) * 2` the last ")" also closes the first "(",
+		// but the item continues after it and is arithmetic over the aggregate, not a single call.
+		wholeCall := end == len(strings.TrimRight(expr, " \t\r\n"))-1 && start != -1 && findMatchingParenInternal(expr, start) == end
+		if wholeCall && end > start {
 			innerExpr := strings.TrimSpace(expr[start+1 : end])
 			if !containsOperators(innerExpr) {
 				isSingleAggWithNestedFunc = true
